@@ -27,17 +27,18 @@ type KnownFinding struct {
 }
 
 type options struct {
-	prop     string
-	tier     string
-	repo     string
-	verif    string
-	only     string
-	keep     bool
-	verbose  bool
-	seed     int
-	workers  int
-	baseline bool
-	dumpFn   string
+	prop        string
+	tier        string
+	repo        string
+	verif       string
+	only        string
+	keep        bool
+	evidenceDir string
+	verbose     bool
+	seed        int
+	workers     int
+	baseline    bool
+	dumpFn      string
 }
 
 func main() {
@@ -55,6 +56,7 @@ func main() {
 	fs.StringVar(&o.verif, "verif", "/verif", "verif dir")
 	fs.StringVar(&o.only, "only", "", "regexp on unit names (debug)")
 	fs.BoolVar(&o.keep, "keep", false, "keep SMT files")
+	fs.StringVar(&o.evidenceDir, "evidence-dir", "", "write the evidence file here instead of <verif>/evidence (self-tests on modified trees)")
 	fs.BoolVar(&o.verbose, "v", false, "verbose")
 	fs.IntVar(&o.workers, "workers", 12, "parallel solver jobs")
 	fs.Parse(os.Args[2:])
@@ -547,6 +549,9 @@ func modelSummary(m string) []string {
 func writeEvidence(o *options, db *ContractDB, reports []oblReport, funcs, assumptions, unsupported, externs, contracts, inlined, callsites []string,
 	byBackend map[string]int, solverTime float64, nObl, nDis, nVac, nViol int, knownHits, broken []string, wall float64) {
 	dir := filepath.Join(o.verif, "evidence")
+	if o.evidenceDir != "" {
+		dir = o.evidenceDir
+	}
 	os.MkdirAll(dir, 0o755)
 	var samples []interface{}
 	for i, r := range reports {
